@@ -24,7 +24,8 @@ def addClassAtom (icase : Bool) (cps : CPS.IvList) : ClassAtom → CPS.IvList
   | .range iv negate => if negate then CPS.addSet cps (CPS.inverted iv) else CPS.addSet cps iv
 
 /-- `try_consume_bracket_class_atom` on the raw input. -/
-def bracketClassAtom (fl : Flags) (inp : List Nat) : Res (Option ClassAtom × List Nat) :=
+def bracketClassAtom (fl : Flags) (hasNamed : Bool) (inp : List Nat) :
+    Res (Option ClassAtom × List Nat) :=
   match inp with
   | [] => .ok (none, inp)
   | c :: rest =>
@@ -55,14 +56,14 @@ def bracketClassAtom (fl : Flags) (inp : List Nat) : Res (Option ClassAtom × Li
           | .ok (.charClass s, rest2) => .ok (some (.range s (ec == 0x50)), rest2)
           | .ok (.stringSet _, _) => synErr "Invalid property escape"
         else
-          match characterEscape fl.unicode rest with
+          match characterEscape fl.unicode hasNamed rest with
           | .error e => .error e
           | .ok (cc, rest2) => .ok (some (.codePoint cc), rest2)
     else .ok (some (.codePoint c), rest)
 
 /-- The `loop` of `consume_bracket`.
 (`let icase = self.flags.icase && self.flags.unicode` is what `add_class_atom` gets.) -/
-def bracketLoop (fl : Flags) (invert : Bool) :
+def bracketLoop (fl : Flags) (hasNamed : Bool) (invert : Bool) :
     Nat → List Nat → CPS.IvList → Res (Node × List Nat)
   | 0, _, _ => panicAt "fuel"
   | fuel+1, inp, cps =>
@@ -74,30 +75,30 @@ def bracketLoop (fl : Flags) (invert : Bool) :
         let cps := if fl.icase then Fold.addIcaseCodePoints cps else cps
         .ok (mkBracket invert cps, rest)
       else
-        match bracketClassAtom fl inp with
+        match bracketClassAtom fl hasNamed inp with
         | .error e => .error e
-        | .ok (none, inp1) => bracketLoop fl invert fuel inp1 cps
+        | .ok (none, inp1) => bracketLoop fl hasNamed invert fuel inp1 cps
         | .ok (some first, inp1) =>
           match inp1 with
           | 0x2D :: inp2 =>
-            match bracketClassAtom fl inp2 with
+            match bracketClassAtom fl hasNamed inp2 with
             | .error e => .error e
             | .ok (none, inp3) =>
-              bracketLoop fl invert fuel inp3 (addClassAtom (addClassAtom cps first) (.codePoint 0x2D))
+              bracketLoop fl hasNamed invert fuel inp3 (addClassAtom (addClassAtom cps first) (.codePoint 0x2D))
             | .ok (some second, inp3) =>
               match first, second with
               | .codePoint c1, .codePoint c2 =>
                 if c1 > c2 then synErr "Range values reversed"
-                else bracketLoop fl invert fuel inp3 (CPS.add cps { first := c1, last := c2 })
+                else bracketLoop fl hasNamed invert fuel inp3 (CPS.add cps { first := c1, last := c2 })
               | _, _ =>
                 if fl.unicode then synErr "Invalid character range"
                 else
-                  bracketLoop fl invert fuel inp3
+                  bracketLoop fl hasNamed invert fuel inp3
                     (addClassAtom (addClassAtom (addClassAtom cps first) (.codePoint 0x2D)) second)
-          | _ => bracketLoop fl invert fuel inp1 (addClassAtom cps first)
+          | _ => bracketLoop fl hasNamed invert fuel inp1 (addClassAtom cps first)
 
 /-- `consume_bracket` on the raw input (which starts with `[`; `self.consume('[')` unwraps). -/
-def consumeBracket (fl : Flags) (inp : List Nat) : Res (Node × List Nat) :=
+def consumeBracket (fl : Flags) (hasNamed : Bool) (inp : List Nat) : Res (Node × List Nat) :=
   match inp with
   | [] => panicAt "consume_bracket: consume('[')"
   | _ :: rest =>
@@ -105,7 +106,7 @@ def consumeBracket (fl : Flags) (inp : List Nat) : Res (Node × List Nat) :=
       match rest with
       | 0x5E :: r => (true, r)
       | _ => (false, rest)
-    bracketLoop fl invert (rest.length + 2) rest []
+    bracketLoop fl hasNamed invert (rest.length + 2) rest []
 
 /-! ## Class sets (`v` flag) -/
 
@@ -151,6 +152,13 @@ def ClassSet.node (self : ClassSet) (icase negateSet : Bool) : Node :=
   let node := self'.nonemptyNode icase negateSet
   if hasEmpty then makeAlt [node, .empty] else node
 
+/-- `ClassSetAlternativeStrings::fold`: every string is mapped code point-wise through
+`unicode::fold`; a folded string already present is dropped (first occurrences are kept). -/
+def foldAlternativeStrings (alts : List (List Nat)) : List (List Nat) :=
+  alts.foldl (fun folded string =>
+    let string := string.map Fold.fold
+    if !folded.contains string then folded ++ [string] else folded) []
+
 /-- `close_class_set_operand`. -/
 def closeClassSetOperand (icase : Bool) (operand : Operand) : Operand :=
   if !icase then operand
@@ -158,8 +166,8 @@ def closeClassSetOperand (icase : Bool) (operand : Operand) : Operand :=
     match operand with
     | .char c => .esc (Fold.addIcaseCodePoints (CPS.addOne [] c))
     | .esc cps => .esc (Fold.addIcaseCodePoints cps)
-    | .cls c => .cls { c with cps := Fold.addIcaseCodePoints c.cps }
-    | .strs s => .strs s
+    | .cls c => .cls { cps := Fold.addIcaseCodePoints c.cps, alts := foldAlternativeStrings c.alts }
+    | .strs s => .strs (foldAlternativeStrings s)
 
 /-- `alternative.len() == 1 && pred(alternative[0])`. -/
 def single? (alt : List Nat) : Option Nat :=
@@ -236,7 +244,7 @@ def isClassSetReservedDoublePunctuator (cp : Nat) : Bool :=
   || cp == 0x3F || cp == 0x40 || cp == 0x5E || cp == 0x60 || cp == 0x7E
 
 /-- `consume_class_set_character` on the raw input. -/
-def classSetCharacter (unicode : Bool) (inp : List Nat) : Res (Nat × List Nat) :=
+def classSetCharacter (unicode hasNamed : Bool) (inp : List Nat) : Res (Nat × List Nat) :=
   match inp with
   | [] => synErr "Incomplete class set character"
   | cp :: rest =>
@@ -244,19 +252,20 @@ def classSetCharacter (unicode : Bool) (inp : List Nat) : Res (Nat × List Nat) 
       match rest with
       | [] => synErr "Incomplete class set escape"
       | e :: rest1 =>
-        if e == 0x62 then .ok (e, rest1)                        -- `\b`: returns `b` itself (sic)
+        if e == 0x62 then .ok (0x08, rest1)                     -- `\b` is backspace
         else if isClassSetReservedPunctuator e then .ok (e, rest1)
-        else characterEscape unicode rest
-    else if cp == 0x28 || cp == 0x29 || cp == 0x7B || cp == 0x7D || cp == 0x2F || cp == 0x2D
-        || cp == 0x7C then synErr "Invalid class set character"
+        else characterEscape unicode hasNamed rest
+    else if cp == 0x28 || cp == 0x29 || cp == 0x5B || cp == 0x5D || cp == 0x7B || cp == 0x7D
+        || cp == 0x2F || cp == 0x2D || cp == 0x7C then synErr "Invalid class set character"
     else if isClassSetReservedDoublePunctuator cp
-        && (match rest with | n :: _ => isClassSetReservedDoublePunctuator n | [] => false) then
+        && (match rest with | n :: _ => n == cp | [] => false) then
+      -- a ClassSetReservedDoublePunctuator is the same punctuator twice
       synErr "Invalid class set character"
     else .ok (cp, rest)
 
 /-- The `loop` of the `\q{…}` branch of `consume_class_set_operand`
 (`alternatives`, `alternative` are the two accumulators). -/
-def classStringLoop (unicode : Bool) :
+def classStringLoop (unicode hasNamed : Bool) :
     Nat → List Nat → List (List Nat) → List Nat → Res (List (List Nat) × List Nat)
   | 0, _, _, _ => panicAt "fuel"
   | fuel+1, inp, alternatives, alternative =>
@@ -264,11 +273,11 @@ def classStringLoop (unicode : Bool) :
     | [] => synErr "Unbalanced class set string disjunction"
     | c :: rest =>
       if c == 0x7D then .ok (alternatives ++ [alternative], rest)
-      else if c == 0x7C then classStringLoop unicode fuel rest (alternatives ++ [alternative]) []
+      else if c == 0x7C then classStringLoop unicode hasNamed fuel rest (alternatives ++ [alternative]) []
       else
-        match classSetCharacter unicode inp with
+        match classSetCharacter unicode hasNamed inp with
         | .error e => .error e
-        | .ok (ch, rest') => classStringLoop unicode fuel rest' alternatives (alternative ++ [ch])
+        | .ok (ch, rest') => classStringLoop unicode hasNamed fuel rest' alternatives (alternative ++ [ch])
 
 /-- The `for alternative in alternatives` loop after `\q{…}`: a string of one character is that
 character; any other string (the empty one included) is rejected in a negated class, and is
@@ -293,7 +302,7 @@ inductive ClassSetOperator where
 
 mutual
 /-- `consume_class_set_expression`. -/
-def classSetExpression (fl : Flags) : Nat → Bool → CSt → Res (ClassSet × CSt)
+def classSetExpression (fl : Flags) (hasNamed : Bool) : Nat → Bool → CSt → Res (ClassSet × CSt)
   | 0, _, _ => panicAt "fuel"
   | fuel+1, neg, st =>
     let result : ClassSet := {}
@@ -302,7 +311,7 @@ def classSetExpression (fl : Flags) : Nat → Bool → CSt → Res (ClassSet × 
     | c0 :: rest0 =>
       if c0 == 0x5D then .ok (result, { st with inp := rest0 })
       else
-        match classSetOperand fl fuel neg st with
+        match classSetOperand fl hasNamed fuel neg st with
         | .error e => .error e
         | .ok (first, st) =>
           match st.inp with
@@ -312,33 +321,32 @@ def classSetExpression (fl : Flags) : Nat → Bool → CSt → Res (ClassSet × 
             else if c1 == 0x26 then
               match rest1 with
               | 0x26 :: rest2 =>
-                classSetIntersection fl fuel neg { st with inp := rest2 }
+                classSetIntersection fl hasNamed fuel neg { st with inp := rest2 }
                   (result.unionOperand (closeClassSetOperand fl.icase first))
               | _ =>
-                let result := result.unionOperand first
-                let result := { result with cps := CPS.addOne result.cps 0x26 }
-                classSetUnion fl fuel neg { st with inp := rest1 } result
+                -- a single `&` is not consumed: the union loop reads it as an ordinary operand
+                classSetUnion fl hasNamed fuel neg st (result.unionOperand first)
             else if c1 == 0x2D then
               match rest1 with
               | 0x2D :: rest2 =>
-                classSetSubtraction fl fuel neg { st with inp := rest2 }
+                classSetSubtraction fl hasNamed fuel neg { st with inp := rest2 }
                   (result.unionOperand (closeClassSetOperand fl.icase first))
               | _ =>
                 match first with
                 | .char f =>
-                  match classSetOperand fl fuel neg { st with inp := rest1 } with
+                  match classSetOperand fl hasNamed fuel neg { st with inp := rest1 } with
                   | .error e => .error e
                   | .ok (.char l, st) =>
                     if f > l then synErr "Invalid class set range"
                     else
-                      classSetUnion fl fuel neg st
+                      classSetUnion fl hasNamed fuel neg st
                         { result with cps := CPS.add result.cps { first := f, last := l } }
                   | .ok (_, _) => synErr "Invalid class set range"
                 | _ => synErr "Invalid class set range"
-            else classSetUnion fl fuel neg st (result.unionOperand first)
+            else classSetUnion fl hasNamed fuel neg st (result.unionOperand first)
 
 /-- The `ClassSetOperator::Union` loop. -/
-def classSetUnion (fl : Flags) : Nat → Bool → CSt → ClassSet → Res (ClassSet × CSt)
+def classSetUnion (fl : Flags) (hasNamed : Bool) : Nat → Bool → CSt → ClassSet → Res (ClassSet × CSt)
   | 0, _, _, _ => panicAt "fuel"
   | fuel+1, neg, st, result =>
     match st.inp with
@@ -346,29 +354,32 @@ def classSetUnion (fl : Flags) : Nat → Bool → CSt → ClassSet → Res (Clas
     | c :: rest =>
       if c == 0x5D then .ok (result, { st with inp := rest })
       else
-        match classSetOperand fl fuel neg st with
+        match classSetOperand fl hasNamed fuel neg st with
         | .error e => .error e
         | .ok (operand, st) =>
           match st.inp with
           | 0x2D :: rest1 =>
             match operand with
             | .char f =>
-              match classSetOperand fl fuel neg { st with inp := rest1 } with
+              match classSetOperand fl hasNamed fuel neg { st with inp := rest1 } with
               | .error e => .error e
               | .ok (.char l, st) =>
                 if f > l then synErr "Invalid class set range"
                 else
-                  classSetUnion fl fuel neg st
+                  classSetUnion fl hasNamed fuel neg st
                     { result with cps := CPS.add result.cps { first := f, last := l } }
               | .ok (_, _) => synErr "Invalid class set range"
             | _ => synErr "Invalid class set range"
-          | _ => classSetUnion fl fuel neg st (result.unionOperand operand)
+          | _ => classSetUnion fl hasNamed fuel neg st (result.unionOperand operand)
 
 /-- The `ClassSetOperator::Intersection` loop. -/
-def classSetIntersection (fl : Flags) : Nat → Bool → CSt → ClassSet → Res (ClassSet × CSt)
+def classSetIntersection (fl : Flags) (hasNamed : Bool) : Nat → Bool → CSt → ClassSet → Res (ClassSet × CSt)
   | 0, _, _, _ => panicAt "fuel"
   | fuel+1, neg, st, result =>
-    match classSetOperand fl fuel neg st with
+    if (match st.inp with | c :: _ => c == 0x26 | [] => false) then
+      synErr "Unexpected character in class set intersection"
+    else
+    match classSetOperand fl hasNamed fuel neg st with
     | .error e => .error e
     | .ok (operand, st) =>
       let result := result.intersectOperand (closeClassSetOperand fl.icase operand)
@@ -378,15 +389,15 @@ def classSetIntersection (fl : Flags) : Nat → Bool → CSt → ClassSet → Re
         if c == 0x5D then .ok (result, { st with inp := rest })
         else if c == 0x26 then
           match rest with
-          | 0x26 :: rest2 => classSetIntersection fl fuel neg { st with inp := rest2 } result
+          | 0x26 :: rest2 => classSetIntersection fl hasNamed fuel neg { st with inp := rest2 } result
           | _ => synErr "Unbalanced class set bracket"
         else synErr "Unexpected character in class set intersection"
 
 /-- The `ClassSetOperator::Subtraction` loop. -/
-def classSetSubtraction (fl : Flags) : Nat → Bool → CSt → ClassSet → Res (ClassSet × CSt)
+def classSetSubtraction (fl : Flags) (hasNamed : Bool) : Nat → Bool → CSt → ClassSet → Res (ClassSet × CSt)
   | 0, _, _, _ => panicAt "fuel"
   | fuel+1, neg, st, result =>
-    match classSetOperand fl fuel neg st with
+    match classSetOperand fl hasNamed fuel neg st with
     | .error e => .error e
     | .ok (operand, st) =>
       let result := result.subtractOperand (closeClassSetOperand fl.icase operand)
@@ -396,12 +407,12 @@ def classSetSubtraction (fl : Flags) : Nat → Bool → CSt → ClassSet → Res
         if c == 0x5D then .ok (result, { st with inp := rest })
         else if c == 0x2D then
           match rest with
-          | 0x2D :: rest2 => classSetSubtraction fl fuel neg { st with inp := rest2 } result
+          | 0x2D :: rest2 => classSetSubtraction fl hasNamed fuel neg { st with inp := rest2 } result
           | _ => synErr "Unbalanced class set bracket"
         else synErr "Unexpected character in class set subtraction"
 
 /-- `consume_class_set_operand`. -/
-def classSetOperand (fl : Flags) : Nat → Bool → CSt → Res (Operand × CSt)
+def classSetOperand (fl : Flags) (hasNamed : Bool) : Nat → Bool → CSt → Res (Operand × CSt)
   | 0, _, _ => panicAt "fuel"
   | fuel+1, neg, st =>
     match st.inp with
@@ -415,7 +426,7 @@ def classSetOperand (fl : Flags) : Nat → Bool → CSt → Res (Operand × CSt)
             match rest with
             | 0x5E :: r => (true, r)
             | _ => (false, rest)
-          match classSetExpression fl fuel (negateSet || neg) { st with inp := rest } with
+          match classSetExpression fl hasNamed fuel (negateSet || neg) { st with inp := rest } with
           | .error e => .error e
           | .ok (result, st) =>
             let result :=
@@ -431,7 +442,7 @@ def classSetOperand (fl : Flags) : Nat → Bool → CSt → Res (Operand × CSt)
           if e == 0x71 then
             match rest1 with
             | 0x7B :: rest2 =>
-              match classStringLoop fl.unicode (rest2.length + 1) rest2 [] [] with
+              match classStringLoop fl.unicode hasNamed (rest2.length + 1) rest2 [] [] with
               | .error e => .error e
               | .ok (alts, rest3) =>
                 match classStringSet neg alts {} with
@@ -458,14 +469,14 @@ def classSetOperand (fl : Flags) : Nat → Bool → CSt → Res (Operand × CSt)
               let cps := if fl.icase then Fold.addIcaseCodePoints ivs else ivs
               .ok (.esc (CPS.inverted cps), { st with inp := rest2 })
             | .ok (.stringSet _, _) => synErr "Invalid character escape"
-          else if e == 0x62 then .ok (.char e, { st with inp := rest1 })      -- `\b` is `b` (sic)
+          else if e == 0x62 then .ok (.char 0x08, { st with inp := rest1 })   -- `\b` is backspace
           else if isClassSetReservedPunctuator e then .ok (.char e, { st with inp := rest1 })
           else
-            match characterEscape fl.unicode rest with
+            match characterEscape fl.unicode hasNamed rest with
             | .error e => .error e
             | .ok (c, rest2) => .ok (.char c, { st with inp := rest2 })
       else
-        match classSetCharacter fl.unicode st.inp with
+        match classSetCharacter fl.unicode hasNamed st.inp with
         | .error e => .error e
         | .ok (c, rest1) => .ok (.char c, { st with inp := rest1 })
 end
